@@ -378,6 +378,15 @@ def causes(v, s):
     kids = v.children[s]
     x = v.exit(s)
     lim = x[SEQ] if x is not None else None
+    # what happens once the scheduler is tidying up (jobs answering their
+    # cancellation) is a consequence of the decision, not a cause
+    sb = v.evs('ssd_begin', s)
+    if sb and (lim is None or sb[0][SEQ] < lim):
+        lim = sb[0][SEQ]
+    for k in kids:
+        for e in v.all(('creq',), k):
+            if lim is None or e[SEQ] < lim:
+                lim = e[SEQ]
     c = None
     for k in kids:
         if v.spec[k].get('critical'):
@@ -471,6 +480,18 @@ def check_abort(v, s, seq0, t0, tag, what, cause_iter=None):
                                                            x[0][T]))))
             elif x[0][KIND] in ('cancel', 'creq') and not v.is_sched(k):
                 cancelled_cd = max(cancelled_cd, v.spec[k].get('cdelay', 0))
+            # a job to which the cancellation was delivered must end up
+            # cancelled, not completed (a body finishing by itself in the same
+            # instant is logged BEFORE any cancellation request)
+            cq = [e for e in v.evs('creq', k) if e[SEQ] > seq0]
+            fin = [e for e in v.all(tuple(mc.FIN), k) if e[SEQ] > seq0]
+            if cq and fin and fin[0][SEQ] > cq[0][SEQ] \
+                    and not v.spec[k].get('cx'):
+                viols.append((tag + ':cancellation-swallowed',
+                              "%s is cancelled at t=%s (#%d) when %s, yet it "
+                              "then completes normally (%s at #%d)"
+                              % (k, cq[0][T], cq[0][SEQ], what, fin[0][KIND],
+                                 fin[0][SEQ])))
     # no task is created for a job of s in a later loop iteration than the
     # one of the cause (the library says STARTING at that point)
     if cause_iter is not None:
@@ -569,8 +590,10 @@ def c04(v):
                 trig = True
         # ---- what was observed
         d = diag[s]
+        # "the very exception object raised by one of its critical jobs":
+        # any of them, also one raised while answering the cancellation
         crit_excs = [e[DATA] for k in kids if v.spec[k].get('critical')
-                     for e in v.all(('raise', 'run_raise'), k)
+                     for e in v.all(('raise', 'run_raise', 'xraise'), k)
                      if e[SEQ] < x[SEQ]]
         obs = None
         may_raise = spec['k'] == 'nest' and spec.get('critical')
@@ -674,6 +697,15 @@ def c08(v):
     tmax = max((e[T] for e in v.log if e[SEQ] < v.ret_seq), default=0)
     for s in scheds_run(v):
         c, f, E = causes(v, s)
+        x0 = v.exit(s)
+        if x0 is not None and x0[KIND] != 'run_cancel' and (
+                E is None or x0[T] < E) and diag[s]['fto']:
+            viols.append(('c08:timeout-reported',
+                          "run of %s ended at t=%s, %s, yet failed_time_out() "
+                          "is %r and why() says %r"
+                          % (s, x0[T], "it has no timeout" if E is None else
+                             "strictly before its expiry at t=%s" % E,
+                             diag[s]['fto'], diag[s]['why'])))
         if E is None:
             continue
         rb = v.begin(s)
